@@ -37,8 +37,8 @@ for h, n, why in (
     ("b73d7cef78", 1, "system clock earlier than 1970"),
     ("20de02d239", 1, "system clock earlier than 1970"),
     ("8d4b2be7e6", 1, "system clock earlier than 1970"),
-    ("c729690782", 1, "now - 10 with now = seconds since 1970"),
-    ("68e313c282", 1, "bucket level (seconds since 1970, at most the cost of one datagram ahead) + cost/TOKENS_PER_SECOND in u32: year 2106"),
+    ("222b0f2f65", 1, "now - 10 with now = seconds since 1970"),
+    ("58c915c69b", 1, "bucket level (seconds since 1970, at most the cost of one datagram ahead) + cost/TOKENS_PER_SECOND in u32: year 2106"),
     ("7a73a6680c", 1, "seconds since 1970 + a lease duration already clamped to the policy maximum, in u64"),
     ("1889e1f7e4", 1, "Instant::now() + a random duration below a constant"),
     ("3bf427676e", 1, "operating-system RNG failure"),
@@ -65,10 +65,10 @@ R("8248e5f66d", "internal", "Instant + lifetime, lifetime <= u32::MAX seconds (f
 R("a626129d44", "internal", "Instant + lifetime, lifetime <= u32::MAX seconds", requires=("C06.R3",))
 R("72e0fc64e3", "internal", "(birth + lifetime) - now on the edge where expiry() >= now", requires=("C06.R2",))
 R("2e61caff4b", "internal", "now - birth: birth is an earlier reading of the same monotonic clock")
-R("fad29e8795", "internal", "Duration * small constant: dur is a measured round trip below the timeout (<= MAX_DNS_TIMEOUT)")
-R("df297fed5a", "internal", "Duration * small constant: the shared timeout is clamped to [MIN_DNS_TIMEOUT, MAX_DNS_TIMEOUT] on every store")
-R("d05c578e12", "internal", "sum of the two bounded products above")
-R("5a2be2af81", "internal", "Duration * small constant: dur is a measured round trip")
+R("f954ce034e", "internal", "Duration * small constant: dur is a measured round trip below the timeout (<= MAX_DNS_TIMEOUT)")
+R("f824cf3ae7", "internal", "Duration * small constant: the shared timeout is clamped to [MIN_DNS_TIMEOUT, MAX_DNS_TIMEOUT] on every store")
+R("c551b98544", "internal", "sum of the two bounded products above")
+R("90454f67e9", "internal", "Duration * small constant: dur is a measured round trip")
 R("c72bdfceac", "internal", "timeout/2 + jitter < timeout; the retry loop ends after a fixed number of rounds so the timeout stays far below Duration::MAX")
 R("5b5e45b5c2", "internal", "timeout += at most 1.5 * timeout for a fixed number of retry rounds")
 
@@ -91,8 +91,8 @@ for h in ("ae74cf4d8d", "6f515e6407", "7a08c882c5", "7898263e58"):
 
 # ------------------------------------------------------------------ decoder / encoder agreements
 R("e35858ec62", "loop", "v[i] with i from 0..v.len(); the only mutation (truncate) is followed by break")
-R("82dd26d7cb", "internal", "expiry - start of a lease row: the single lease write stores expiry = start + duration", requires=("C10.R3", "C01.R1"))
-R("76358d051a", "internal", "2 * (u32 difference as u64)")
+R("2996a0b99f", "internal", "expiry - start of a lease row: the single lease write stores expiry = start + duration", requires=("C10.R3", "C01.R1"))
+R("081d962e6d", "internal", "2 * (u32 difference as u64)")
 R("4a36f6da52", "unreach", "the cache sits below the ACL and listener layers: listener/ACL error variants are never produced by what it calls",
   count=5, requires=("S1",))
 R("eaf4a031b1", "unreach", "create_in_error receives errors of the handler chain only; listen/accept/recv/parse errors are produced "
